@@ -884,7 +884,7 @@ def _analyze_directory_for_import(root, project, schema):
     elif callable(schema):
         schema_function = _with_consistency_check(schema, read_statepoint_file)
     elif isinstance(schema, str):
-        if not schema.startswith(root):
+        if not (os.path.isabs(schema) and schema.startswith(os.path.abspath(root))):
             schema = os.path.normpath(os.path.join(root, schema))
         schema_function = _with_consistency_check(
             _make_path_based_schema_function(schema), read_statepoint_file
